@@ -237,7 +237,7 @@ impl Check for SourceCheck {
             Kind::FileU8 | Kind::SigmfArchiveU8 => 1,
         };
         let cap = small / esz;
-        let len = match src.below(9) {
+        let len = match src.below(11) {
             0 => 0,
             1 => 1,
             2 => cap - 1,
@@ -245,6 +245,9 @@ impl Check for SourceCheck {
             4 => cap + 1,
             5 => 3 * cap + src.below(17),
             6 => src.range(1, 2 * cap),
+            // Lengths that divide the stream: a repetition can end exactly where the stream is full.
+            9 => cap / 2,
+            10 => cap / 4,
             _ => src.range(1, cap.min(300)),
         };
         let rep = match src.below(6) {
@@ -398,6 +401,11 @@ impl Check for SourceCheck {
         };
         let target_inf = 5 * len + 3;
         let drain_style = src.below(3);
+        // A stubborn downstream leaves a full stream alone for several calls in a row.
+        let stubborn = src.chance(1, 3);
+        let mut held = 0;
+        // Bounded, so that a long source drained a few items at a time still ends within the call budget.
+        let mut held_total = 0;
         let mut calls_since_complete = 0;
         let mut pieces_this_rep_max = 0usize;
         let mut eof_seen = false;
@@ -415,7 +423,14 @@ impl Check for SourceCheck {
                 if full {
                     ctx.count("fault:output_full");
                 }
-                let do_drain = full && src.chance(3, 4) || src.chance(1, 3);
+                let do_drain = if full && stubborn && held < 3 && held_total < 60 {
+                    held += 1;
+                    held_total += 1;
+                    false
+                } else {
+                    held = 0;
+                    full && src.chance(3, 4) || src.chance(1, 3)
+                };
                 if do_drain && avail > 0 {
                     let m = match drain_style {
                         0 => src.range(1, avail.min(7)),
